@@ -202,7 +202,7 @@ Proof.
   destruct (c0 =? E) eqn:?; [exists s; f_equal; lia|].
   destruct (E <? c0 + 7) eqn:?; [lia|]. cbv zeta.
   hdr_split (E - c0 - 7). hdr_split (count s). hdr_split (count s + 1).
-  destruct (_ =? _) eqn:?; [eexists; reflexivity | lia].
+  destruct (hdr (E - c0 - 7) + hdr (count s + 1) =? 3 + hdr (count s)) eqn:?; [eexists; reflexivity | lia].
 Qed.
 
 Lemma cose_known_fails : forall s c0 E,
@@ -215,7 +215,7 @@ Proof.
   destruct (c0 =? E) eqn:?; [lia|].
   destruct (E <? c0 + 7) eqn:?; [reflexivity|]. cbv zeta.
   hdr_split (E - c0 - 7). hdr_split (count s). hdr_split (count s + 1).
-  destruct (_ =? _) eqn:?; [lia | reflexivity].
+  destruct (hdr (E - c0 - 7) + hdr (count s + 1) =? 3 + hdr (count s)) eqn:?; [lia | reflexivity].
 Qed.
 
 Lemma cose_below_fails : forall s c0 E,
